@@ -133,3 +133,28 @@ package file
 //@ loop 1: invariant hasSpok(fsid, start) ==> 0 <= spokIdx(fsid, start) && spokIdx(fsid, start) < len(entries) && !entIsDir(entries[spokIdx(fsid, start)]) && entName(entries[spokIdx(fsid, start)]) == "spokfile"
 //@ loop 1: invariant forall d string :: {ancOrSelf(d, old(start))} ancOrSelf(d, old(start)) && depth(d) > depth(start) && !properAnc(d, stop) ==> !hasSpok(fsid, d)
 //@ loop 1: decreases len(entries) - $i
+
+// ---- New: from a parsed tree to a SpokFile (C03 duplicates, C13 variables, C05/C12 task fields) ----
+
+//@ pred tname(n iface) := unbox(n, ast.Task).Name.Name
+
+//@ func New
+//@ props C03 C13 C05 C12
+//@ requires NodesOK(tree.Nodes)
+//@ ensures [shape] result1 == nil ==> result0 != nil && fresh(result0) && result0.Dir == root && result0.Path == join2(root, "spokfile") && result0.Vars != nil && result0.Tasks != nil && result0.Globs != nil
+//@ ensures [C03,TasksInv] result1 == nil ==> TasksInv(result0)
+//@ ensures [C13,vars-are-the-last-assignments] result1 == nil ==> mapval(result0.Vars) == varsF(tree.Nodes, len(tree.Nodes))
+//@ ensures [C13,tasks-built-with-vars-so-far] result1 == nil ==> forall k int :: {tree.Nodes[k]} 0 <= k && k < len(tree.Nodes) && nodeType(tree.Nodes[k]) == ast.NodeTask ==> dom(result0.Tasks, tname(tree.Nodes[k])) && TaskMatches(result0.Tasks[tname(tree.Nodes[k])], unbox(tree.Nodes[k], ast.Task), root, varsF(tree.Nodes, k))
+//@ ensures [C03,duplicate-task-names-rejected] result1 == nil ==> forall i int, j int :: {tree.Nodes[i], tree.Nodes[j]} 0 <= i && i < j && j < len(tree.Nodes) && nodeType(tree.Nodes[i]) == ast.NodeTask && nodeType(tree.Nodes[j]) == ast.NodeTask ==> tname(tree.Nodes[i]) != tname(tree.Nodes[j])
+//@ loop 0: invariant 0 <= $i && $i <= len(tree.Nodes) && file.Vars != nil && file.Tasks != nil && file.Globs != nil && file.Dir == root && file.Path == join2(root, "spokfile")
+//@ loop 0: invariant mapval(file.Vars) == varsF(tree.Nodes, $i)
+//@ loop 0: invariant mapval(file.Tasks) == mapval(file.Tasks) && forall key string :: {dom(file.Tasks, key)} {file.Tasks[key]} dom(file.Tasks, key) ==> file.Tasks[key].Name == key
+//@ loop 0: invariant forall k int :: {tree.Nodes[k]} 0 <= k && k < $i && nodeType(tree.Nodes[k]) == ast.NodeTask ==> dom(file.Tasks, tname(tree.Nodes[k])) && TaskMatches(file.Tasks[tname(tree.Nodes[k])], unbox(tree.Nodes[k], ast.Task), root, varsF(tree.Nodes, k))
+//@ loop 0: invariant forall i int, j int :: {tree.Nodes[i], tree.Nodes[j]} 0 <= i && i < j && j < $i && nodeType(tree.Nodes[i]) == ast.NodeTask && nodeType(tree.Nodes[j]) == ast.NodeTask ==> tname(tree.Nodes[i]) != tname(tree.Nodes[j])
+//@ loop 0: decreases len(tree.Nodes) - $i
+//@ loop 1: invariant 0 <= $i && $i <= len(function.Arguments) && args == argLits(function.Arguments, $i)
+//@ loop 1: decreases len(function.Arguments) - $i
+//@ loop 2: invariant 0 <= $i
+//@ loop 2: decreases len(task.GlobDependencies) - $i
+//@ loop 3: invariant 0 <= $i
+//@ loop 3: decreases len(task.GlobOutputs) - $i
